@@ -147,6 +147,17 @@ def _tl_corrupt(evs, profile):
     return None
 
 
+def _hedge_corrupt(evs, profile):
+    out = [dict(e) for e in evs]
+    # all-attempts-failed although one attempt is shown as never having failed
+    for i, e in enumerate(out):
+        if e.get('e') == 'poll' and e.get('kind') == 'allfailed':
+            for j in range(i - 1, 0, -1):
+                if out[j].get('e') == 'complete' and out[j].get('c') == e.get('c'):
+                    return out[:j] + out[j + 1:]
+    return None
+
+
 COMPONENTS = {
     'bulkhead': {
         'spec_files': ['Bulkhead.tla', 'MC_Bulkhead.tla', 'Trace_Bulkhead.tla'],
@@ -238,6 +249,15 @@ COMPONENTS = {
         'random': {'quick': [{'runs': 2000}], 'thorough': [{'runs': 30000}]},
         'corrupt': _tl_corrupt,
     },
+    'hedge': {
+        'spec_files': ['Hedge.tla', 'MC_Hedge.tla', 'Trace_Hedge.tla'],
+        'mc': {'quick': [{'cfg': 'MC_Hedge_q.cfg', 'module': 'MC_Hedge'}], 'thorough': [{'cfg': 'MC_Hedge.cfg', 'module': 'MC_Hedge'}]},
+        'gen': {'cfg': 'Gen_Hedge.cfg', 'module': 'MC_Hedge', 'num': {'quick': 500, 'thorough': 6000}, 'depth': 40},
+        'trace_module': 'Trace_Hedge', 'trace_cfg_tmpl': 'Trace_Hedge.cfg.tmpl',
+        'harness': 'hedge',
+        'random': {'quick': [{'runs': 2000}], 'thorough': [{'runs': 30000}]},
+        'corrupt': _hedge_corrupt,
+    },
 }
 
 PROPS = {
@@ -256,6 +276,7 @@ PROPS = {
     'C14': {'comp': 'backoff', 'profile': 'schedule'},
     'C16': {'comp': 'reconnect', 'profile': 'full'},
     'C06': {'comp': 'timelimiter', 'profile': 'full'},
+    'C12': {'comp': 'hedge', 'profile': 'full'},
     'C02': {'comp': 'ratelimiter', 'profile': 'ProfC02', 'drift_profile': 'ProfAll'},
     'C15': {'comp': 'ratelimiter', 'profile': 'ProfC15', 'drift_profile': 'ProfAll'},
 }
